@@ -17,6 +17,7 @@
 #include <fcntl.h>
 #include <pthread.h>
 #include <dirent.h>
+#include <poll.h>
 #endif
 
 #include <nstd/Debug.hpp>
@@ -898,29 +899,26 @@ ssize Process::read(void* buffer, usize length, uint& streams)
   return i;
 #endif
 #else
-  fd_set fdr;
-  FD_ZERO(&fdr);
-  int maxFd = 0;
+  pollfd fds[2] = {};
+  nfds_t count = 0;
   if(streams & stdoutStream && fdStdOutRead)
   {
-    FD_SET(fdStdOutRead, &fdr);
-    maxFd = fdStdOutRead;
+    fds[count].fd = fdStdOutRead;
+    fds[count++].events = POLLIN;
   }
   if(streams & stderrStream && fdStdErrRead)
   {
-    FD_SET(fdStdErrRead, &fdr);
-    if(fdStdErrRead > maxFd)
-      maxFd = fdStdErrRead;
+    fds[count].fd = fdStdErrRead;
+    fds[count++].events = POLLIN;
   }
-  if(maxFd == 0)
+  if(count == 0)
   {
     errno = EINVAL;
     return -1;
   }
-  timeval tv = {1000, 0};
   for(;;)
   {
-    int i = select(maxFd + 1, &fdr, 0, 0, &tv);
+    int i = poll(fds, count, -1);
     if(i == 0)
       continue;
     if(i == -1)
@@ -931,12 +929,12 @@ ssize Process::read(void* buffer, usize length, uint& streams)
     }
     break;
   }
-  if(streams & stdoutStream && fdStdOutRead && FD_ISSET(fdStdOutRead, &fdr))
+  if(streams & stdoutStream && fdStdOutRead && fds[0].revents)
   {
     streams = stdoutStream;
     return ::read(fdStdOutRead, buffer, length);
   }
-  if(streams & stderrStream && fdStdErrRead && FD_ISSET(fdStdErrRead, &fdr))
+  if(streams & stderrStream && fdStdErrRead && fds[count - 1].revents)
   {
     streams = stderrStream;
     return ::read(fdStdErrRead, buffer, length);
